@@ -10,6 +10,7 @@ mod frame;
 mod cmd;
 mod song;
 mod filter;
+mod commands;
 mod tags;
 mod typed;
 mod util;
@@ -39,6 +40,7 @@ const FAMILIES: &[Family] = &[
     Family { name: "song", gen: song::gen, exec: song::exec },
     Family { name: "filter", gen: filter::gen, exec: filter::exec },
     Family { name: "typed", gen: typed::gen, exec: typed::exec },
+    Family { name: "commands", gen: commands::gen, exec: commands::exec },
 ];
 
 fn main() {
